@@ -340,7 +340,7 @@ def cases(tier, seed):
     thorough = tier == 'thorough'
     idx = 0
     for kind in KINDS:
-        reps = (30 if thorough else 2) if kind.startswith('mac0') else (12 if thorough else 1)
+        reps = (90 if thorough else 2) if kind.startswith('mac0') else (36 if thorough else 1)
         for rep in range(reps):
             out.append(dict(id='flips-%s-%d' % (kind, rep), kind='flips', cose=kind, seed=seed * 101 + idx,
                             limit=None if kind.startswith('mac0') else (1500 if thorough else 260)))
